@@ -257,8 +257,12 @@ fn gen(r: &mut dyn FnMut() -> u64) -> Scenario {
     let maxt = start + 3 * n as u64 * t + 3;
     let mut rl = |r: &mut dyn FnMut() -> u64| -> Lim { if r() % 2 == 0 { Lim::Count((r() % (total as u64 + 2)) as usize) } else { Lim::Time(start + r() % (maxt - start + 1)) } };
     let mut builder_limits = vec![];
-    match r() % 5 { 0 => {}, 1 => builder_limits.push(rl(r)), 2 => { builder_limits.push(rl(r)); builder_limits.push(rl(r)); }
-        3 => builder_limits.push(Lim::And(Box::new(rl(r)), Box::new(rl(r)))), _ => builder_limits.push(Lim::Or(Box::new(rl(r)), Box::new(Lim::And(Box::new(rl(r)), Box::new(rl(r)))))) }
+    match r() % 7 { 0 => {}, 1 => builder_limits.push(rl(r)), 2 => { builder_limits.push(rl(r)); builder_limits.push(rl(r)); }
+        3 => builder_limits.push(Lim::And(Box::new(rl(r)), Box::new(rl(r)))),
+        4 => builder_limits.push(Lim::Or(Box::new(rl(r)), Box::new(Lim::And(Box::new(rl(r)), Box::new(rl(r)))))),
+        // a composite limit first, simple bounds added afterwards: the additions must compose by Or with the WHOLE tree
+        5 => { builder_limits.push(Lim::And(Box::new(rl(r)), Box::new(rl(r)))); builder_limits.push(rl(r)); if r() % 2 == 0 { builder_limits.push(rl(r)); } }
+        _ => { builder_limits.push(Lim::Or(Box::new(rl(r)), Box::new(rl(r)))); builder_limits.push(rl(r)); } }
     let mut steps = vec![];
     if r() % 3 != 0 {
         for _ in 0..(1 + r() % 4) {
